@@ -107,10 +107,40 @@ class Walker:
             return env[pl['l']]
         return ('s', canon(f.sym_operand(op)))
 
+    def _vkey(self, key, ver):
+        """atom keys mentioning a place that was stored to earlier on this path get a
+        version suffix: the second `status == Unsolved` test is a different atom"""
+        suf = ''.join('@%s#%d' % (t, n) for t, n in sorted(ver.items()) if t in key)
+        return key + suf
+
+    @staticmethod
+    def _decide(key, mem):
+        """eq/ne between an enum constant and a place whose last stored value on this path
+        is a known enum constant"""
+        for op in ('eq(', 'ne('):
+            if key.startswith(op) and key.endswith(')'):
+                inner = key[len(op):-1]
+                depth = 0
+                for i, ch in enumerate(inner):
+                    if ch in '([':
+                        depth += 1
+                    elif ch in ')]':
+                        depth -= 1
+                    elif ch == ',' and depth == 0:
+                        a, b = inner[:i].strip(), inner[i + 1:].strip()
+                        for x, y in ((a, b), (b, a)):
+                            if y in mem and mem[y] is not None and '::' in mem[y] and '::' in x and '(' not in x and '(' not in mem[y]:
+                                r = (mem[y] == x)
+                                return int(r if op == 'eq(' else not r)
+                        return None
+        return None
+
     def walk(self, val):
         f = self.f
         env = {}
         events = []
+        ver = {}
+        mem = {}
         bb = 0
         steps = 0
         trace = []
@@ -141,12 +171,16 @@ class Walker:
                             tgt = canon(f.sym_place(pl))
                             v = self._opval(env, rv['a']) if rv['k'] == 'use' else ('s', canon(f.sym_rvalue(rv)))
                             events.append(('store', tgt, v[1] if v[0] != 'n' else 'not(%s)' % (v[1][1],), bb))
+                            ver[tgt] = ver.get(tgt, 0) + 1
+                            mem[tgt] = v[1] if v[0] == 's' else None
             t = b['t']
             k = t['k']
             if k == 'goto':
                 bb = t['t']
             elif k == 'return':
                 r = env.get(0, ('s', canon(f.sym_local(0))))
+                if r[0] == 's':
+                    r = ('s', self._vkey(r[1], ver))
                 return self._final(r, val), events, trace
             elif k == 'call':
                 c = f.call_at[bb]
@@ -168,8 +202,12 @@ class Walker:
                 if v[0] == 'c':
                     x = v[1]
                 else:
-                    key = v[1]
+                    key = self._vkey(v[1], ver)
                     domain = [int(a[0]) for a in t['ts']]
+                    known = self._decide(v[1], mem)
+                    if known is not None and key not in val:
+                        val = dict(val)
+                        val[key] = known
                     if key not in val:
                         raise NeedAtom(key, domain)
                     x = val[key]
